@@ -740,6 +740,10 @@ def c11_monitor(s, a, rt):
                     fails.append(f"C11: op {i} constructed over stored state {cur} but something ran: {entries[0]}")
                 if kv["cur"] != cur:
                     fails.append(f"C11: op {i} construction changed the stored state {cur} -> {kv['cur']}")
+                valid = {eng.rp(eng.POOL[st.val]) for st in s.states}
+                if R[2] == "err" and cur in valid and not (len(R) > 3 and R[3] == "invaliddef"):
+                    fails.append(f"C11: op {i}: construction over the valid stored state {cur} failed ({R[3] if len(R) > 3 else '?'}) "
+                                 f"instead of resuming it")
             else:
                 pending_initial = True
         if op[0] == "activate" and cur != "-" and not pending_initial and entries:
